@@ -26,8 +26,8 @@ impl Prop for C11 {
       name: "ascii trees",
       source: Cases::Generated(
         Box::new(|| tree(GenCfg::positional()).prop_map(|spec| TreeCase { spec }).boxed()),
-        150_000,
-        4_000_000,
+        800_000,
+        10_000_000,
       ),
     }]
   }
